@@ -6,7 +6,7 @@ import LettreVerif.Props.C17
 #print axioms LV.C17.date_roundtrip
 #print axioms LV.C17.date_injective
 #print axioms LV.C17.date_fields_in_range
-#print axioms LV.C17.mailbox_address_roundtrip
+#print axioms LV.C17.mailbox_roundtrip
 #print axioms LV.C17.mailbox_list_roundtrip
 #print axioms LV.C17.display_name_is_one_phrase
 #print axioms LV.C17.address_class_sound
